@@ -292,7 +292,14 @@ chain_child(const char *user, int nfire)
 	if (write(src, user, strlen(user)) < 0 || lseek(src, 0, SEEK_SET) < 0 || pipe(p) < 0) {
 		_exit(81);
 	}
-	hxq_add(p[1], src);
+	if (getenv("C14_DIRECT")) {
+		/* probing aid: hand the text to the daemon as it is */
+		if (write(p[1], user, strlen(user)) < 0) {
+			_exit(83);
+		}
+	} else {
+		hxq_add(p[1], src);
+	}
 	close(p[1]);
 	while (tot < sizeof(S->q_text) - 1 && (n = read(p[0], S->q_text + tot, sizeof(S->q_text) - 1 - tot)) > 0) {
 		tot += n;
@@ -658,6 +665,9 @@ dump(void)
 		strcpy(val, "0");
 	} else {
 		snprintf(val, sizeof(val), "PT%ldS", L);
+	}
+	if (vd_opt("val", NULL)) {
+		snprintf(val, sizeof(val), "%s", vd_opt("val", ""));
 	}
 	user_file(user, sizeof(user), kind, val, 0, cmd);
 	if (run_chain(user, 1) || S->vlen[0] < 0) {
